@@ -1,4 +1,34 @@
+(* C08 theorems: statements are the *_stmt definitions of ProofsProps.v; T is any type, D any record of operations
+   satisfying the field laws FieldOK (Spec.v). *)
 From Coq Require Import List.
-From C08 Require Import Model.
-Theorem C08_tmp : forall T (D : Dom T), setdegree D nil = nil. Proof. reflexivity. Qed.
-Print Assumptions C08_tmp.
+From C08 Require Import Model Spec ProofsBasic ProofsProps.
+Theorem C08_spec_ring_laws : forall T (D : Dom T), FieldOK D -> SpecRing_stmt D.
+Proof. exact (@SpecRing_ok). Qed.
+Print Assumptions C08_spec_ring_laws.
+Theorem C08_schoolbook_on_ranges : forall T (D : Dom T), FieldOK D -> StdmulRange_stmt D.
+Proof. exact (@StdmulRange_ok). Qed.
+Print Assumptions C08_schoolbook_on_ranges.
+Theorem C08_karatsuba_eq_schoolbook_every_threshold : forall T (D : Dom T), FieldOK D -> KaraRange_stmt D.
+Proof. exact (@KaraRange_ok). Qed.
+Print Assumptions C08_karatsuba_eq_schoolbook_every_threshold.
+Theorem C08_mul_correct_normalised : forall T (D : Dom T), FieldOK D -> Mul_stmt D.
+Proof. exact (@Mul_ok). Qed.
+Print Assumptions C08_mul_correct_normalised.
+Theorem C08_stdmul_correct : forall T (D : Dom T), FieldOK D -> Stdmul_stmt D.
+Proof. exact (@Stdmul_ok). Qed.
+Print Assumptions C08_stdmul_correct.
+Theorem C08_karamul_first_level_correct : forall T (D : Dom T), FieldOK D -> Karamul_stmt D.
+Proof. exact (@Karamul_ok). Qed.
+Print Assumptions C08_karamul_first_level_correct.
+Theorem C08_division_identity_partial : forall T (D : Dom T), FieldOK D -> DivisionIdentity_stmt D.
+Proof. exact (@DivisionIdentity_ok). Qed.
+Print Assumptions C08_division_identity_partial.
+Theorem C08_bezout : forall T (D : Dom T), FieldOK D -> Bezout_stmt D.
+Proof. exact (@Bezout_ok). Qed.
+Print Assumptions C08_bezout.
+Theorem C08_normal_form_and_zero : forall T (D : Dom T), FieldOK D -> Normal_stmt D.
+Proof. exact (@Normal_ok). Qed.
+Print Assumptions C08_normal_form_and_zero.
+Theorem C08_hypotheses_satisfiable : FieldOK GF2Dom.
+Proof. exact GF2_ok. Qed.
+Print Assumptions C08_hypotheses_satisfiable.
